@@ -1,6 +1,7 @@
 package lab
 
 import (
+	"bytes"
 	"fmt"
 	"sync"
 	"sync/atomic"
@@ -25,6 +26,7 @@ type CacheCfg struct {
 	TTLTick            int64  `json:"ttl_tick_s,omitempty"`
 	NoCallbacks        bool   `json:"no_callbacks,omitempty"`
 	NKeys              int    `json:"nkeys"`
+	KeyZero            bool   `json:"key_zero,omitempty"`       // integer key kinds start at 0: key index 0 is the key 0, whose primary hash is 0
 	AllowHashDup       bool   `json:"allow_hash_dup,omitempty"` // do not insist on distinct primary hashes (C01 provenance only needs values)
 }
 
@@ -239,7 +241,10 @@ func NewLab(cfg CacheCfg) (*Lab, error) {
 	}
 	l := &Lab{Cfg: cfg, Start: time.Now(), HashIdx: map[uint64]int{}}
 	var err error
-	const base = 1000
+	base := 1000
+	if cfg.KeyZero {
+		base = 0
+	}
 	switch cfg.KeyKind {
 	case "uint64":
 		l.C, err = buildCache(l, func(i int) uint64 { return uint64(base + i) }, func(k uint64) int { return int(k) - base })
@@ -266,6 +271,11 @@ func NewLab(cfg CacheCfg) (*Lab, error) {
 		l.C, err = buildCache(l, shortKey, func(k []byte) int { return shortKeyIdx(k) })
 	case "string-short":
 		l.C, err = buildCache(l, func(i int) string { return string(shortKey(i)) }, func(k string) int { return shortKeyIdx([]byte(k)) })
+	case "bytes-long":
+		// 1100-byte keys that agree everywhere except for four bytes in their middle part
+		l.C, err = buildCache(l, longKey, func(k []byte) int { return longKeyIdx(k) })
+	case "string-long":
+		l.C, err = buildCache(l, func(i int) string { return string(longKey(i)) }, func(k string) int { return longKeyIdx([]byte(k)) })
 	default:
 		return nil, fmt.Errorf("unknown key kind %q", cfg.KeyKind)
 	}
@@ -341,6 +351,15 @@ func (l *Lab) NewClient() *Client {
 // NextVal issues a fresh unique value for a key.
 func (c *Client) NextVal(key int) uint64 {
 	c.seq++
+	return MakeVal(key, c.ID, c.seq)
+}
+
+// NextValParity issues a fresh value whose sequence number is odd / even (ShouldUpdate "parity" refuses odd ones).
+func (c *Client) NextValParity(key int, odd bool) uint64 {
+	c.seq++
+	if (c.seq%2 == 1) != odd {
+		c.seq++
+	}
 	return MakeVal(key, c.ID, c.seq)
 }
 
@@ -516,6 +535,28 @@ func shortKey(i int) []byte {
 	k := make([]byte, 1+i%8)
 	k[0] = byte(1 + i/8)
 	return k
+}
+
+func longKey(i int) []byte {
+	k := bytes.Repeat([]byte{'x'}, 1100)
+	pos := []int{300, 548, 796}[i%3]
+	for j := 0; j < 4; j++ {
+		k[pos+j] = 0x80 | byte(i>>(6*(3-j)))&0x3f
+	}
+	return k
+}
+
+func longKeyIdx(k []byte) int {
+	for p, b := range k {
+		if b >= 0x80 && p+4 <= len(k) {
+			i := 0
+			for j := 0; j < 4; j++ {
+				i = i<<6 | int(k[p+j]&0x3f)
+			}
+			return i
+		}
+	}
+	return -1
 }
 
 func shortKeyIdx(k []byte) int {
